@@ -35,7 +35,15 @@ func (s *Sched) shadowOf(ch any) *chanState {
 	if c, ok := s.chans[p]; ok {
 		return c
 	}
-	c := &chanState{cap: reflect.ValueOf(ch).Cap(), real: ch}
+	rv := reflect.ValueOf(ch)
+	c := &chanState{cap: rv.Cap(), real: ch}
+	// a channel that was closed before this execution began (a package-level "already
+	// done" channel closed in an initialiser, say) starts closed here too
+	if rv.Type().ChanDir()&reflect.RecvDir != 0 && rv.Len() == 0 {
+		if x, ok := rv.TryRecv(); !ok && x.IsValid() {
+			c.closed = true
+		}
+	}
 	s.objID(&c.obj)
 	s.chans[p] = c
 	return c
@@ -287,7 +295,12 @@ func Recv2[T any](ch <-chan T) (T, bool) {
 
 func Close[T any](ch chan T) {
 	s := S
-	if s == nil || s.aborting {
+	if s == nil {
+		// outside any execution (package initialisers, harness set-up): the real thing
+		close(ch)
+		return
+	}
+	if s.aborting {
 		return
 	}
 	c := s.shadowOf(ch)
